@@ -23,9 +23,9 @@ pub const MAIN: usize = usize::MAX;
 pub const N_SITES: usize = 19;
 pub const STEP_CAP: u64 = 100_000;
 /// no progress of the turn holder for this long AND its OS thread asleep in the kernel (state `S`
-/// in /proc/self/task/<tid>/stat, sampled twice) = it is blocked in a primitive of the library.
+/// in /proc/self/task/<tid>/stat, in four consecutive samples 400 us apart) = it is blocked in a primitive of the library.
 /// A turn holder that is merely descheduled stays in state `R` and is never mistaken for stalled.
-pub const STALL_US: u64 = 1500;
+pub const STALL_US: u64 = 3000;
 /// nothing moves at all for this long = deadlock
 pub const WATCHDOG_S: u64 = 4;
 /// after this many forced switches in one simulation the rest of it runs unscheduled
@@ -559,11 +559,17 @@ pub fn simulate(cfg: SimConfig, bodies: Vec<Box<dyn FnOnce() + Send + 'static>>)
                 continue;
             }
             let tid = TIDS.lock().unwrap().get(holder).copied().unwrap_or(0);
-            if !thread_is_asleep(tid) {
-                continue;
+            let mut asleep = thread_is_asleep(tid);
+            for _ in 0..3 {
+                if !asleep {
+                    break;
+                }
+                std::thread::sleep(Duration::from_micros(400));
+                asleep = thread_is_asleep(tid)
+                    && PROGRESS.load(Ordering::Relaxed) + finished.load(Ordering::Relaxed) as u64
+                        == last_progress;
             }
-            std::thread::sleep(Duration::from_micros(300));
-            if !thread_is_asleep(tid) || PROGRESS.load(Ordering::Relaxed) + finished.load(Ordering::Relaxed) as u64 != last_progress {
+            if !asleep {
                 continue;
             }
             let mut guard = STATE.lock().unwrap();
